@@ -1,0 +1,6 @@
+//go:build !verif
+
+package jrpc2
+
+// verifPoint is a no-op unless the package is built with the "verif" tag.
+func verifPoint(string, any, any) {}
